@@ -70,7 +70,7 @@ def vectors(rng, n, complex_=False, k=3):
     return vs
 
 
-def built_operators(ctx, mesh, fixed_sites, fix_psi):
+def built_operators(ctx, mesh, fixed_sites, fix_psi, solver=None):
     """MeshOperators with its matrices built. The constructor also LU-factorises the (by design singular) scalar
     Laplacian, which SuperLU survives only thanks to rounding; on a mesh whose row sums vanish exactly it raises
     'Factor is exactly singular' (seen on the structured zoo mesh). The identities do not need the factorisation, so
@@ -79,7 +79,8 @@ def built_operators(ctx, mesh, fixed_sites, fix_psi):
     from tdgl.finite_volume.operators import MeshOperators
     from tdgl.solver.options import SparseSolver
 
-    mo = MeshOperators(mesh, SparseSolver.SUPERLU, fixed_sites=fixed_sites, fix_psi=fix_psi)
+    solver = solver or SparseSolver.SUPERLU
+    mo = MeshOperators(mesh, solver, fixed_sites=fixed_sites, fix_psi=fix_psi)
     try:
         mo.build_operators()
     except RuntimeError as e:
@@ -89,7 +90,7 @@ def built_operators(ctx, mesh, fixed_sites, fix_psi):
         orig = spl.factorized
         spl.factorized = lambda A: None
         try:
-            mo = MeshOperators(mesh, SparseSolver.SUPERLU, fixed_sites=fixed_sites, fix_psi=fix_psi)
+            mo = MeshOperators(mesh, solver, fixed_sites=fixed_sites, fix_psi=fix_psi)
             mo.build_operators()
         finally:
             spl.factorized = orig
@@ -208,8 +209,17 @@ def check_mesh(ctx, name, mesh, fixed, with_model=True):
 
     # the scalar operators in use (with and without terminal sites): Laplacian = divergence o gradient,
     # area-weighted symmetric, annihilates the constants
-    for fx_ in ((None, fixed) if fixed is not None else (None,)):
-        mo2 = built_operators(ctx, mesh, fx_, True)
+    # ... whichever linear solver the operators are prepared for (building them for PARDISO needs no optional package;
+    # UMFPACK is left out: selecting it switches a process-wide scipy setting and needs scikits.umfpack)
+    for fx_, slv_ in [(f_, s_) for f_ in ((None, fixed) if fixed is not None else (None,)) for s_ in (SparseSolver.SUPERLU, SparseSolver.PARDISO)]:
+        if slv_ is not SparseSolver.SUPERLU and fx_ is None and fixed is not None:
+            continue  # the other solvers: once per mesh is enough
+        try:
+            mo2 = built_operators(ctx, mesh, fx_, True, solver=slv_)
+        except (ImportError, ModuleNotFoundError):
+            ctx.count(f"solver_not_constructible:{slv_.value}")
+            continue
+        ctx.count(f"operators_built_for:{slv_.value}")
         mo2.set_link_exponents(rng.normal(size=(E, 2)))
         Lu = sp.csr_matrix(mo2.mu_laplacian)
         DG = sp.csr_matrix(mo2.divergence) @ sp.csr_matrix(mo2.mu_gradient)
@@ -219,9 +229,9 @@ def check_mesh(ctx, name, mesh, fixed, with_model=True):
         r2 = float(np.abs(aL - aL.T).max()) / float(np.abs(aL).max())
         r3 = float(np.abs(Lu @ np.ones(n)).max()) / sc_
         ctx.tol("operators in use: mu_laplacian = divergence o mu_gradient / symmetric / constants", max(r1, r2, r3), 1e-9)
-        ctx.case((name, "scalar_in_use", fx_ is not None), nontrivial=True)
+        ctx.case((name, "scalar_in_use", fx_ is not None, slv_.value), nontrivial=True)
         if max(r1, r2, r3) > 1e-9:
-            fail("scalar_laplacian_in_use", dict(with_terminal_sites=fx_ is not None, lap_minus_divgrad=r1, asymmetry=r2, constants=r3))
+            fail("scalar_laplacian_in_use", dict(with_terminal_sites=fx_ is not None, sparse_solver=slv_.value, lap_minus_divgrad=r1, asymmetry=r2, constants=r3))
 
     # ---------------- correspondence with the Lean model --------------------------------------
     if with_model:
